@@ -21,6 +21,7 @@ func init() {
 		Controls: []Control{
 			{Name: "pullid-drops-its-options", File: "pkg/resource/collection.go", Old: "\tchanges := c.Pull(ctx, opts...)\n", New: "\tchanges := c.Pull(ctx)\n", Expect: "R06.9"},
 			{Name: "sanitiser-cuts-at-every-list", File: "pkg/masks/get.go", Old: "\t\tif fd.IsMap() || fd.Message() == nil {\n", New: "\t\tif fd.IsList() || fd.IsMap() || fd.Message() == nil {\n", Expect: "paths through repeated messages"},
+			{Name: "inventory-mask-rebuilt-from-paths", File: "pkg/trait/vendingpb/model_server.go", Old: "\tfilter := masks.NewResponseFilter(masks.WithFieldMask(request.ReadMask))\n\tpage := sortedItems[nextIndex:upperBound]\n\tresult.Inventory", New: "\tfilter := masks.NewResponseFilter(masks.WithFieldMaskPaths(request.GetReadMask().GetPaths()...))\n\tpage := sortedItems[nextIndex:upperBound]\n\tresult.Inventory", Expect: "R06.10"},
 			{Name: "empty-mask-treated-as-nil", File: "pkg/masks/get.go", Old: "func WithFieldMask(fm *fieldmaskpb.FieldMask) ResponseFilterOption {\n\tif fm == nil {\n", New: "func WithFieldMask(fm *fieldmaskpb.FieldMask) ResponseFilterOption {\n\tif len(fm.GetPaths()) == 0 {\n", Expect: "R06.8"},
 			{Name: "filterclone-filters-original", File: "pkg/masks/get.go", Old: "\tfmutils.Filter(clone, paths)\n\treturn clone", New: "\tfmutils.Filter(msg, paths)\n\treturn msg", Expect: "R06.1"},
 			{Name: "empty-mask-returns-everything", File: "pkg/masks/get.go", Old: "\tif len(paths) == 0 {\n\t\tproto.Reset(clone)\n\t\treturn clone\n\t}\n\tfmutils.Filter(clone, paths)", New: "\tif len(paths) == 0 {\n\t\treturn msg\n\t}\n\tfmutils.Filter(clone, paths)", Expect: "R06.1"},
@@ -56,6 +57,12 @@ func runC06(c *an.Ctx) {
 	r066(c)
 	r068(c, "R06.8")
 	c.Min("R06.8", 3)
+	r0610(c, "R06.10")
+	c.Min("R06.10", 3)
+	// a read never alters what is stored: E2 (shared with R07.1) over the read side - Get/List/Pull functions of the
+	// trait packages and the goroutines they start
+	runE2(c, "R06.11", isReadSide)
+	c.Min("R06.11", 20)
 	c.Min("R06.6", 1)
 	c.Min("R06.7", 1)
 }
@@ -363,8 +370,9 @@ func r062(c *an.Ctx) {
 	}
 }
 
-func r063(c *an.Ctx) {
-	const rule = "R06.3"
+func r063(c *an.Ctx) { r063as(c, "R06.3") }
+
+func r063as(c *an.Ctx, rule string) {
 	w := publishedWorld(c)
 	n := 0
 	fq := "(*" + an.ModulePath + "/pkg/masks.ResponseFilter).Filter"
@@ -1004,4 +1012,71 @@ func cutsAtLists(fns map[*ssa.Function]bool) ssa.Instruction {
 		})
 	}
 	return found
+}
+
+// r0610: a request's mask keeps its nil-ness on the way to the filter. The path-list spellings of the mask options
+// (masks.WithFieldMaskPaths, resource.WithReadPaths, WithUpdatePaths, ...) always build a non-nil mask; fed with
+// `mask.GetPaths()...` of a mask that may be absent they turn "no mask: everything" into "no paths: nothing", and
+// the response is a list of empty items. Every call of such an option in the module is looked at: its paths do not
+// come from a FieldMask's own path list unless a non-nil test of a mask guards the call.
+func r0610(c *an.Ctx, rule string) {
+	isPathsOption := func(f *ssa.Function) bool {
+		if f == nil || f.Pkg == nil || !f.Signature.Variadic() || f.Object() == nil || !f.Object().Exported() {
+			return false
+		}
+		p := f.Pkg.Pkg.Path()
+		if p != an.ModulePath+"/pkg/masks" && p != an.ModulePath+"/pkg/resource" {
+			return false
+		}
+		last := f.Signature.Params().At(f.Signature.Params().Len() - 1).Type().String()
+		return last == "[]string" && f.Signature.Results().Len() == 1 && strings.HasSuffix(f.Signature.Results().At(0).Type().String(), "Option")
+	}
+	n := 0
+	for _, fn := range c.Prog.FuncsIn("") {
+		if !an.InModule(fn) || strings.HasSuffix(c.Prog.RelFile(fn.Pos()), "_test.go") {
+			continue
+		}
+		ord := 0
+		an.Instrs(fn, func(in ssa.Instruction) {
+			call, ok := in.(*ssa.Call)
+			if !ok || !isPathsOption(call.Call.StaticCallee()) {
+				return
+			}
+			ord++
+			n++
+			paths := call.Call.Args[len(call.Call.Args)-1]
+			fromMask := false
+			for _, v := range an.Sources(paths) {
+				switch x := v.(type) {
+				case *ssa.Call:
+					if strings.HasSuffix(an.CalleeName(x), "fieldmaskpb.FieldMask).GetPaths") {
+						fromMask = true
+					}
+				case *ssa.UnOp:
+					if _, sn, f, isF := an.FieldOf(x.X); isF && f == "Paths" && strings.HasSuffix(sn, "fieldmaskpb.FieldMask") {
+						fromMask = true
+					}
+				}
+			}
+			guarded := false
+			for _, e := range an.GuardingEdges(call) {
+				if x, trueMeansNil, ok := an.NilTest(e.If.Cond); ok && e.Branch != trueMeansNil && strings.HasSuffix(x.Type().String(), "fieldmaskpb.FieldMask") {
+					guarded = true
+				}
+			}
+			c.Check(!fromMask || guarded, rule, fmt.Sprintf("%s|paths option #%d does not rebuild a possibly absent mask", an.FuncName(fn), ord), call.Pos(), "",
+				"the option is given the path list of a mask that may be nil: it builds a non-nil mask without paths, so a request without a mask (everything) is answered as if it had asked for no fields")
+		})
+	}
+	c.Count("paths_option_calls", n)
+}
+
+// isReadSide: fn, or the function it is a closure of, is a Get…/List…/Pull… function.
+func isReadSide(fn *ssa.Function) bool {
+	f := fn
+	for f.Parent() != nil {
+		f = f.Parent()
+	}
+	n := f.Name()
+	return strings.HasPrefix(n, "Get") || strings.HasPrefix(n, "List") || strings.HasPrefix(n, "Pull") || strings.HasPrefix(n, "pull") || strings.HasPrefix(n, "list")
 }
